@@ -283,18 +283,27 @@ class Engine:
         mod, cls = clsq.split(".")
         out = []
         for f in self.repo.methods(mod, cls):
+            self._alias_scope = f
             for n in walk_no_nested(f.node):
                 if isinstance(n, ast.Call) and pred(n):
                     out.append(f.qualname)
                     break
+        self._alias_scope = None
         return out
 
     def _is_field_call(self, call: ast.Call, field: str, meth: str) -> bool:
         f = call.func
-        return (
-            isinstance(f, ast.Attribute) and f.attr == meth and isinstance(f.value, ast.Attribute)
-            and f.value.attr == field and isinstance(f.value.value, ast.Name) and f.value.value.id == "self"
-        )
+        if not (isinstance(f, ast.Attribute) and f.attr == meth):
+            return False
+        recv = f.value
+        if isinstance(recv, ast.Name) and getattr(self, "_alias_scope", None) is not None:
+            # a local bound once, to the field: `stream = self._stream; stream.read(n)`
+            fn = self._alias_scope
+            binds = [n.value for n in walk_no_nested(fn.node) if isinstance(n, ast.Assign) and len(n.targets) == 1 and isinstance(n.targets[0], ast.Name) and n.targets[0].id == recv.id]
+            stores = [n for n in walk_no_nested(fn.node) if isinstance(n, ast.Name) and n.id == recv.id and isinstance(n.ctx, (ast.Store, ast.Del))]
+            if len(binds) == 1 and len(stores) == 1 and recv.id not in fn.params:
+                recv = binds[0]
+        return isinstance(recv, ast.Attribute) and recv.attr == field and isinstance(recv.value, ast.Name) and recv.value.id == "self"
 
     @cached_property
     def read_primitive(self) -> str:
